@@ -148,6 +148,8 @@ class Sess:
         fl += sorted(n for n in self.notes if n.startswith('coordinated-') or n == 'forged-extension')
         if 'forged-for-order-two-key' in self.notes:
             fl = ['order-two-off-curve-key-forgery']
+        if any(n.startswith('one-bit-of-r-off') for n in self.notes):
+            fl = ['one-bit-of-r-off'] + fl
         if 'valid-signature-with-large-x' in self.notes:
             fl = ['valid-signature-with-large-x'] + fl
         if 'forged-with-identity-ephemeral' in self.notes:
@@ -350,7 +352,7 @@ def o_ecdsa(s, ctx, v, out):
     Q = cv.decode_uncompressed(unhex(s.m['pk']['val']))
     r, ss = sint(s.m['r']['val']), sint(s.m['s']['val'])
     msg = s.m['msg']['sent']
-    pre = s.opts.get('hash') != '0' or 'forged-for-order-two-key' in s.notes
+    pre = s.opts.get('hash') != '0' or 'forged-for-order-two-key' in s.notes or any(n.startswith('one-bit-of-r-off') for n in s.notes)
     digest = msg if pre else hashlib.sha256(msg).digest()
     exp = models.ecdsa_verify(cv, Q, digest, r, ss)
     out.evals += 1
@@ -644,7 +646,8 @@ def hopts(rng):
 SCHEMES.update({
     'ecdsa': Spec('C05', 4, dict(pk='ec', r='bn', s='bn', msg='bytes'), o_ecdsa, weight=14,
                   opts=lambda rng: dict(hash=rng.below(2), dup=rng.below(2), cls=1 if rng.chance(0.3) else 0),
-                  extra_faults=[('forge', 'v_forgeinf'), ('forge', 'v_forgeord2'), ('forge', 'v_forgelargex')]),
+                  extra_faults=[('forge', 'v_forgeinf'), ('forge', 'v_forgeord2'), ('forge', 'v_forgelargex'), ('forge', 'v_forgecmp'),
+                                ('forge', 'v_forgecmp')]),
     # x-only Schnorr: (e, n - s) under -Q is itself a valid triple
     'ecss': Spec('C05', 4, dict(pk='ec', e='bn', s='bn', msg='bytes'), o_ecss, extra_faults=[('forge', 'v_forgeinf')]),
     'rsasig': Spec('C05', 3, dict(sig='bytes', msg='bytes'), o_rsasig, rsa=True, opts=hopts,
